@@ -27,8 +27,10 @@ import (
 	"strconv"
 	"strings"
 	"sync"
+	"sync/atomic"
 	"time"
 
+	"github.com/gorilla/websocket"
 	"shanhu.io/g/sniproxy"
 	"verifharness/cmd/c01/e2e"
 	"verifharness/hx"
@@ -38,8 +40,9 @@ import (
 
 type LookupEntry struct {
 	Domain  string `json:"domain"` // hex
-	Err     bool   `json:"err,omitempty"`
-	Name    string `json:"name,omitempty"` // hex
+	Err     bool   `json:"err,omitempty"`    // the lookup returns a non-nil error
+	NoDest  bool   `json:"nodest,omitempty"` // the lookup returns a nil *Dest
+	Name    string `json:"name,omitempty"`   // hex
 	Home    bool   `json:"home,omitempty"`
 	Forward string `json:"forward,omitempty"` // hex
 }
@@ -148,6 +151,7 @@ type Case struct {
 	Race   *RaceCase  `json:"race,omitempty"`
 	Regen  *RegenCase `json:"regen,omitempty"`
 	E2E    *E2E       `json:"e2e,omitempty"`
+	Refuse *RefuseCase `json:"refuse,omitempty"`
 	Crash  string     `json:"crash,omitempty"`
 }
 
@@ -229,9 +233,16 @@ func runReject(r *hx.Rng) *RejectCase {
 	return &RejectCase{Name: hx16(name), IsIP: net.ParseIP(name) != nil, Rejected: sniproxy.VerifIsRejectedDomain(name)}
 }
 
-func runRoute(r *hx.Rng) *RouteCase {
+// runRoute: corpus 0 = random; 1 = the lookup returns the connected endpoint
+// together with an error; 2 = the lookup returns (nil, nil); 3 = a Home
+// destination together with an error; 4 = a forward together with an error.
+func runRoute(r *hx.Rng, corpus int) *RouteCase {
 	c := &RouteCase{HasLookup: r.Intn(12) != 0, HasHome: r.Bool()}
 	sni := genName(r)
+	if corpus != 0 {
+		c.HasLookup = true
+		sni = []string{"", "suspended.example", "void.example", "suspended-home.example", "suspended-fwd.example"}[corpus]
+	}
 	// A server name with a trailing dot cannot be carried by a ClientHello
 	// that crypto/tls accepts; the raw names go through the "reject" stream.
 	for strings.HasSuffix(sni, ".") {
@@ -240,6 +251,9 @@ func runRoute(r *hx.Rng) *RouteCase {
 	c.SNI = hx16(sni)
 	c.IsIP = net.ParseIP(sni) != nil
 	neps := r.Intn(5)
+	if corpus != 0 {
+		neps = 3
+	}
 	var eps []string
 	for i := 0; i < neps; i++ {
 		eps = append(eps, fmt.Sprintf("/ep%d", r.Intn(6)))
@@ -257,15 +271,23 @@ func runRoute(r *hx.Rng) *RouteCase {
 	if c.Endpoints == nil {
 		c.Endpoints = []string{}
 	}
+	someEndpoint := func() string {
+		// mostly an endpoint that is connected, so that a refused name that is
+		// routed anyway shows up as a dial
+		if len(ueps) > 0 && r.Intn(4) != 0 {
+			return ueps[r.Intn(len(ueps))]
+		}
+		return fmt.Sprintf("/ep%d", r.Intn(6))
+	}
 	table := map[string]LookupEntry{}
-	addEntry := func(domain string) {
+	addEntry := func(domain string, kind int) {
 		if _, ok := table[domain]; ok {
 			return
 		}
 		e := LookupEntry{Domain: hx16(domain)}
-		switch r.Intn(8) {
-		case 0:
-			e.Err = true
+		switch kind {
+		case 0: // (nil, err)
+			e.Err, e.NoDest = true, true
 		case 1:
 			e.Home = true
 			e.Name = hx16("~")
@@ -275,17 +297,31 @@ func runRoute(r *hx.Rng) *RouteCase {
 		case 3: // both set: Home wins
 			e.Home = true
 			e.Forward = hx16("127.0.0.1:9")
+		case 4: // (dest, err): the owner is resolved but the name is refused
+			e.Err = true
+			e.Name = hx16(someEndpoint())
+		case 5: // (nil, nil)
+			e.NoDest = true
+		case 6: // (home dest, err)
+			e.Err, e.Home = true, true
+			e.Name = hx16("~")
+		case 7: // (forward dest, err)
+			e.Err = true
+			e.Forward = hx16(fmt.Sprintf("127.0.0.1:%d", 1000+r.Intn(100)))
 		default:
-			e.Name = hx16(fmt.Sprintf("/ep%d", r.Intn(6)))
+			e.Name = hx16(someEndpoint())
 		}
 		table[domain] = e
 		c.Table = append(c.Table, e)
 	}
-	if r.Intn(5) != 0 {
-		addEntry(sni)
+	switch {
+	case corpus != 0:
+		addEntry(sni, []int{0, 4, 5, 6, 7}[corpus])
+	case r.Intn(5) != 0:
+		addEntry(sni, r.Intn(14))
 	}
 	for i, n := 0, r.Intn(4); i < n; i++ {
-		addEntry(genName(r))
+		addEntry(genName(r), r.Intn(14))
 	}
 	if c.Table == nil {
 		c.Table = []LookupEntry{}
@@ -295,10 +331,18 @@ func runRoute(r *hx.Rng) *RouteCase {
 	if c.HasLookup {
 		cfg.Lookup = func(domain string) (*sniproxy.Dest, error) {
 			e, ok := table[domain]
-			if !ok || e.Err {
+			if !ok {
 				return nil, fmt.Errorf("bad domain %q", domain)
 			}
-			return &sniproxy.Dest{Name: unhex(e.Name), Home: e.Home, ForwardTCP: unhex(e.Forward)}, nil
+			var d *sniproxy.Dest
+			if !e.NoDest {
+				d = &sniproxy.Dest{Name: unhex(e.Name), Home: e.Home, ForwardTCP: unhex(e.Forward)}
+			}
+			var err error
+			if e.Err {
+				err = fmt.Errorf("domain %q is refused", domain)
+			}
+			return d, err
 		}
 	}
 
@@ -311,7 +355,17 @@ func runRoute(r *hx.Rng) *RouteCase {
 		c.Dialed = true
 		c.DialName = hx16(name)
 		c.DialAddr = addr
-		d := sniproxy.VerifServerDial(cfg, c.HasHome, true, ueps, name, addr)
+		var d string
+		func() {
+			// a panic inside Server.dial is an observation (in the server it
+			// ends the process: the connection goroutine has no recover)
+			defer func() {
+				if e := recover(); e != nil {
+					d = "panic:" + fmt.Sprint(e)
+				}
+			}()
+			d = sniproxy.VerifServerDial(cfg, c.HasHome, true, ueps, name, addr)
+		}()
 		c.Decision = d
 		if i := strings.Index(d, ":"); i >= 0 {
 			c.Decision, c.DecisionArg = d[:i], hx16(d[i+1:])
@@ -646,6 +700,16 @@ func runE2E(r *hx.Rng, mode string, neps, nconns int) *E2E {
 		if domain == "ghost.example" {
 			return &sniproxy.Dest{Name: "/ghost"}, nil
 		}
+		// The four shapes of a lookup result: the owner is resolved but the
+		// name is refused (destination AND error), and neither of the two.
+		switch domain {
+		case "suspended.example":
+			return &sniproxy.Dest{Name: "/ep0"}, fmt.Errorf("domain %q is suspended", domain)
+		case "expired.example":
+			return &sniproxy.Dest{Name: fmt.Sprintf("/ep%d", neps-1)}, fmt.Errorf("domain %q is expired", domain)
+		case "void.example":
+			return nil, nil
+		}
 		// Names that hostConn must have rejected never get here; if they do,
 		// route them to a live endpoint so that the leak shows at a backend.
 		if domain == "" || net.ParseIP(domain) != nil || strings.HasSuffix(domain, ".after.blue") ||
@@ -692,7 +756,8 @@ func runE2E(r *hx.Rng, mode string, neps, nconns int) *E2E {
 		chunks                [][]byte
 		hello                 []byte
 	}
-	invalid := []string{"", "10.1.2.3", "::1", "x.after.blue", "deep.x.speedy.red", "ghost.example", "refused.example", "site99.example"}
+	invalid := []string{"", "10.1.2.3", "::1", "x.after.blue", "deep.x.speedy.red", "ghost.example", "refused.example", "site99.example",
+		"suspended.example", "expired.example", "void.example"}
 	var plans []plan
 	for i := 0; i < nconns; i++ {
 		p := plan{tag: fmt.Sprintf("conn-%d-%x", i, r.U64()), sni: true}
@@ -831,6 +896,354 @@ func runE2E(r *hx.Rng, mode string, neps, nconns int) *E2E {
 	return res
 }
 
+// ---- refuse stream ----
+//
+// Every error return of proxy.hostConn between accepting the front connection
+// and handing it to an endpoint, end to end through the public API: the hello
+// cannot be sniffed, the name is rejected, the lookup refuses (all result
+// shapes), the server has no lookup, Home without DialHome, DialHome /
+// DialForward fail, the endpoint is not connected, the side token cannot be
+// had, the endpoint cannot open its side connection.  For each: the front
+// connection must be closed without a byte coming back, and no endpoint may
+// accept a connection or read a byte because of it.
+
+type RefuseObs struct {
+	World    string `json:"world"`
+	Scenario string `json:"scenario"`
+	Expect   string `json:"expect"` // "refused" or the endpoint that must serve it
+	Sent     int    `json:"sent"`
+	Got      int    `json:"got"`      // bytes the client received
+	Reply    string `json:"reply"`    // first line received (served scenarios)
+	End      string `json:"end"`      // closed | hung | open
+	Accepted int64  `json:"accepted"` // connections accepted at any endpoint because of this scenario
+	Bytes    int64  `json:"bytes"`    // bytes read at any endpoint because of this scenario
+	Where    string `json:"where,omitempty"` // which endpoints
+	// the scenario as the model sees it
+	SniffOK   bool         `json:"sniff_ok"`            // HelloInfo can succeed on the payload
+	Name      string       `json:"name"`                // hex: the server name HelloInfo reports
+	IsIP      bool         `json:"is_ip"`
+	HasLookup bool         `json:"has_lookup"`
+	HasHome   bool         `json:"has_home"`
+	Entry     *LookupEntry `json:"entry,omitempty"`     // what the lookup returns for the name
+	Endpoints []string     `json:"endpoints"`           // hex: connected endpoints
+	DialOK    bool         `json:"dial_ok"`             // the dial of a selected destination can succeed
+}
+
+type RefuseCase struct {
+	Mode     string      `json:"mode"`
+	Obs      []RefuseObs `json:"obs"`
+	SetupErr string      `json:"setup_err,omitempty"`
+}
+
+type refuseWorld struct {
+	w        *e2e.World
+	cfg      *sniproxy.ServerConfig
+	names    []string
+	mu       sync.Mutex
+	accepted map[string]int64
+	bytes    map[string]int64
+}
+
+type countReader struct {
+	r io.Reader
+	f func(n int)
+}
+
+func (c *countReader) Read(p []byte) (int, error) {
+	n, err := c.r.Read(p)
+	if n > 0 {
+		c.f(n)
+	}
+	return n, err
+}
+
+func (rw *refuseWorld) handler(ep string, conn net.Conn) {
+	defer conn.Close()
+	rw.mu.Lock()
+	rw.accepted[ep]++
+	rw.mu.Unlock()
+	conn.SetDeadline(time.Now().Add(15 * time.Second))
+	br := bufio.NewReader(&countReader{r: conn, f: func(n int) {
+		rw.mu.Lock()
+		rw.bytes[ep] += int64(n)
+		rw.mu.Unlock()
+	}})
+	if _, err := e2e.ReadRecord(br); err == nil {
+		if line, err := br.ReadString('\n'); err == nil {
+			fmt.Fprintf(conn, "EP %s GOT %s\n", ep, strings.TrimSuffix(line, "\n"))
+		}
+	}
+	io.Copy(io.Discard, br)
+}
+
+func (rw *refuseWorld) totals() (int64, int64, string) {
+	rw.mu.Lock()
+	defer rw.mu.Unlock()
+	var a, b int64
+	var where []string
+	for ep, n := range rw.accepted {
+		a += n
+		where = append(where, fmt.Sprintf("%s:%d conn/%d B", ep, n, rw.bytes[ep]))
+	}
+	for _, n := range rw.bytes {
+		b += n
+	}
+	sort.Strings(where)
+	return a, b, strings.Join(where, " ")
+}
+
+type refuseScenario struct {
+	name      string
+	payload   []byte
+	halfClose bool   // the client closes its writing side after the payload
+	expect    string // "refused" or an endpoint
+	sni       string // the server name in the payload; "-" when the hello cannot be sniffed
+	dialFails bool   // the dial of the selected destination cannot succeed
+}
+
+func (rw *refuseWorld) run(world string, sc refuseScenario) RefuseObs {
+	o := RefuseObs{World: world, Scenario: sc.name, Expect: sc.expect, Endpoints: []string{}}
+	o.SniffOK = sc.sni != "-"
+	o.DialOK = !sc.dialFails
+	o.HasLookup = rw.cfg.Lookup != nil
+	o.HasHome = rw.cfg.DialHome != nil
+	for _, n := range rw.names {
+		o.Endpoints = append(o.Endpoints, hx16(n))
+	}
+	if o.SniffOK {
+		o.Name = hx16(sc.sni)
+		o.IsIP = net.ParseIP(sc.sni) != nil
+		if rw.cfg.Lookup != nil {
+			d, err := rw.cfg.Lookup(sc.sni)
+			e := &LookupEntry{Domain: hx16(sc.sni), Err: err != nil, NoDest: d == nil}
+			if d != nil {
+				e.Name, e.Home, e.Forward = hx16(d.Name), d.Home, hx16(d.ForwardTCP)
+			}
+			o.Entry = e
+		}
+	}
+	a0, b0, _ := rw.totals()
+	conn, err := rw.w.DialFront()
+	if err != nil {
+		o.End = "front-dial:" + err.Error()
+		return o
+	}
+	defer conn.Close()
+	conn.SetDeadline(time.Now().Add(8 * time.Second))
+	n, _ := conn.Write(sc.payload) // the proxy may close before everything is written
+	o.Sent = n
+	if sc.halfClose {
+		conn.(*net.TCPConn).CloseWrite()
+	}
+	br := bufio.NewReader(conn)
+	if sc.expect != "refused" {
+		line, _ := br.ReadString('\n')
+		o.Reply = strings.TrimSuffix(line, "\n")
+		o.Got = len(line)
+		o.End = "open"
+	} else {
+		got, err := io.Copy(io.Discard, br)
+		o.Got = int(got)
+		o.End = "closed"
+		if ne, ok := err.(net.Error); ok && ne.Timeout() {
+			o.End = "hung"
+		}
+	}
+	conn.Close()
+	// anything this connection caused at an endpoint has happened by the time
+	// the proxy closed the front connection (the dial precedes the join); allow
+	// for the backend goroutine to be scheduled
+	time.Sleep(30 * time.Millisecond)
+	if sc.expect != "refused" {
+		time.Sleep(50 * time.Millisecond)
+	}
+	a1, b1, where := rw.totals()
+	o.Accepted, o.Bytes = a1-a0, b1-b0
+	if o.Accepted != 0 || o.Bytes != 0 {
+		o.Where = where
+	}
+	return o
+}
+
+func tagged(hello []byte, tag string) []byte {
+	return append(append([]byte{}, hello...), []byte(tag+"\n")...)
+}
+
+func runRefuse(r *hx.Rng, mode string) *RefuseCase {
+	res := &RefuseCase{Mode: mode, Obs: []RefuseObs{}}
+	siding := mode != "legacy"
+	refusedErr := func(d string) error { return fmt.Errorf("domain %q is refused", d) }
+
+	mk := func(cfg *sniproxy.ServerConfig, names []string) (*refuseWorld, error) {
+		rw := &refuseWorld{accepted: map[string]int64{}, bytes: map[string]int64{}, cfg: cfg, names: names}
+		var sideDials int32
+		w, err := e2e.NewWorldCfg(mode, cfg, names, rw.handler, func(name string) *websocket.Dialer {
+			if name != "/epside" {
+				return nil
+			}
+			// this endpoint can reach the proxy for its control connection only
+			return &websocket.Dialer{
+				ReadBufferSize: sniproxy.DefaultReadBufferSize, WriteBufferSize: sniproxy.DefaultWriteBufferSize,
+				NetDialContext: func(ctx context.Context, network, addr string) (net.Conn, error) {
+					if atomic.AddInt32(&sideDials, 1) > 1 {
+						return nil, errors.New("verif: side connections are blocked for this endpoint")
+					}
+					return (&net.Dialer{}).DialContext(ctx, network, addr)
+				},
+			}
+		})
+		if err != nil {
+			return nil, err
+		}
+		rw.w = w
+		return rw, nil
+	}
+
+	// a port nothing listens on
+	closedPort := func() string {
+		l, err := net.Listen("tcp", "127.0.0.1:0")
+		if err != nil {
+			return "127.0.0.1:1"
+		}
+		defer l.Close()
+		return l.Addr().String()
+	}()
+
+	// ---- world A: everything a configured server can refuse
+	lookupA := func(domain string) (*sniproxy.Dest, error) {
+		switch domain {
+		case "site0.example":
+			return &sniproxy.Dest{Name: "/ep0"}, nil
+		case "site1.example":
+			return &sniproxy.Dest{Name: "/ep1"}, nil
+		case "ghost.example":
+			return &sniproxy.Dest{Name: "/ghost"}, nil
+		case "suspended.example":
+			return &sniproxy.Dest{Name: "/ep0"}, refusedErr(domain)
+		case "suspended-home.example":
+			return &sniproxy.Dest{Home: true}, refusedErr(domain)
+		case "suspended-fwd.example":
+			return &sniproxy.Dest{ForwardTCP: closedPort}, refusedErr(domain)
+		case "void.example":
+			return nil, nil
+		case "home.example":
+			return &sniproxy.Dest{Home: true}, nil
+		case "fwd.example":
+			return &sniproxy.Dest{ForwardTCP: "127.0.0.1:9"}, nil
+		case "tok.example":
+			return &sniproxy.Dest{Name: "/eptok"}, nil
+		case "side.example":
+			return &sniproxy.Dest{Name: "/epside"}, nil
+		}
+		if domain == "" || net.ParseIP(domain) != nil || strings.HasSuffix(domain, ".after.blue") ||
+			strings.HasSuffix(domain, ".speedy.red") || strings.HasSuffix(domain, ".iproxy.cloud") ||
+			strings.HasSuffix(domain, ".spothot.online") {
+			return &sniproxy.Dest{Name: "/ep0"}, nil // a rejected name that got this far is served, so that it shows
+		}
+		return nil, refusedErr(domain)
+	}
+	cfgA := &sniproxy.ServerConfig{
+		Lookup: lookupA,
+		DialForward: func(ctx context.Context, fwd string) (net.Conn, error) {
+			return nil, errors.New("verif: forward target unreachable")
+		},
+		SideToken: func(user string) (string, error) {
+			if user == "/eptok" {
+				return "", errors.New("verif: no token for this endpoint")
+			}
+			return "", nil
+		},
+	}
+	hello := func(name string) []byte { return e2e.SynthHello(name, name != "", 0) }
+	full := hello("site0.example")
+	big := append([]byte{22, 3, 1, 0x40, 0x01}, bytes.Repeat([]byte{0xAB}, 0x4001)...) // record payload 16385
+	junk := append([]byte{22, 3, 1, 0, 64}, r.Bytes(64)...)
+	sideExpect := func(ep string) string {
+		if siding {
+			return "refused"
+		}
+		return ep
+	}
+	scA := []refuseScenario{
+		{"control-before", tagged(full, "T-control-before"), false, "/ep0", "site0.example", false},
+		{"sniff:not-tls", []byte("GET / HTTP/1.1\r\nHost: site0.example\r\n\r\nT-not-tls\n"), false, "refused", "-", false},
+		{"sniff:appdata-record", append([]byte{23, 3, 3, 0, 16}, []byte("T-appdata-rec...\n")...), false, "refused", "-", false},
+		{"sniff:eof-in-header", full[:3], true, "refused", "-", false},
+		{"sniff:eof-after-header", full[:5], true, "refused", "-", false},
+		{"sniff:eof-in-hello", full[:len(full)/2], true, "refused", "-", false},
+		{"sniff:eof-one-byte-short", full[:len(full)-1], true, "refused", "-", false},
+		{"sniff:oversize-record", append(big, []byte("T-oversize\n")...), false, "refused", "-", false},
+		{"sniff:garbage-handshake", tagged(junk, "T-garbage"), false, "refused", "", false},
+		{"sniff:empty", nil, true, "refused", "-", false},
+		{"reject:no-sni", tagged(hello(""), "T-no-sni"), false, "refused", "", false},
+		{"reject:ipv4", tagged(hello("10.1.2.3"), "T-ipv4"), false, "refused", "10.1.2.3", false},
+		{"reject:ipv6", tagged(hello("::1"), "T-ipv6"), false, "refused", "::1", false},
+		{"reject:suffix-after.blue", tagged(hello("x.after.blue"), "T-sfx1"), false, "refused", "x.after.blue", false},
+		{"reject:suffix-speedy.red", tagged(hello("a.b.speedy.red"), "T-sfx2"), false, "refused", "a.b.speedy.red", false},
+		{"reject:suffix-iproxy.cloud", tagged(hello("x.iproxy.cloud"), "T-sfx3"), false, "refused", "x.iproxy.cloud", false},
+		{"reject:suffix-spothot.online", tagged(hello("x.spothot.online"), "T-sfx4"), false, "refused", "x.spothot.online", false},
+		{"lookup:nil-err", tagged(hello("refused.example"), "T-nil-err"), false, "refused", "refused.example", false},
+		{"lookup:dest-err", tagged(hello("suspended.example"), "T-dest-err"), false, "refused", "suspended.example", false},
+		{"lookup:home-err", tagged(hello("suspended-home.example"), "T-home-err"), false, "refused", "suspended-home.example", false},
+		{"lookup:forward-err", tagged(hello("suspended-fwd.example"), "T-fwd-err"), false, "refused", "suspended-fwd.example", false},
+		{"lookup:nil-nil", tagged(hello("void.example"), "T-nil-nil"), false, "refused", "void.example", false},
+		{"endpoint:not-connected", tagged(hello("ghost.example"), "T-ghost"), false, "refused", "ghost.example", false},
+		{"home:no-dialhome", tagged(hello("home.example"), "T-home-missing"), false, "refused", "home.example", false},
+		{"forward:dial-error", tagged(hello("fwd.example"), "T-fwd-error"), false, "refused", "fwd.example", true},
+		{"dial:side-token-error", tagged(hello("tok.example"), "T-tok"), false, sideExpect("/eptok"), "tok.example", siding},
+		{"dial:side-connection-fails", tagged(hello("side.example"), "T-side"), false, sideExpect("/epside"), "side.example", siding},
+		{"control-after", tagged(hello("site1.example"), "T-control-after"), false, "/ep1", "site1.example", false},
+	}
+	rwA, err := mk(cfgA, []string{"/ep0", "/ep1", "/eptok", "/epside"})
+	if err != nil {
+		res.SetupErr = err.Error()
+		return res
+	}
+	for _, sc := range scA {
+		res.Obs = append(res.Obs, rwA.run("A", sc))
+	}
+	rwA.w.Close()
+
+	// ---- world B: a server without lookup ("server not accepting")
+	rwB, err := mk(&sniproxy.ServerConfig{}, []string{"/ep0"})
+	if err != nil {
+		res.SetupErr = "world B: " + err.Error()
+		return res
+	}
+	res.Obs = append(res.Obs, rwB.run("B", refuseScenario{"lookup:none-configured", tagged(full, "T-nolookup"), false, "refused", "site0.example", false}))
+	rwB.w.Close()
+
+	// ---- world C: DialHome fails; default forward dialer to a port nothing listens on
+	cfgC := &sniproxy.ServerConfig{
+		Lookup: func(domain string) (*sniproxy.Dest, error) {
+			switch domain {
+			case "home.example":
+				return &sniproxy.Dest{Home: true}, nil
+			case "fwd.example":
+				return &sniproxy.Dest{ForwardTCP: closedPort}, nil
+			case "site0.example":
+				return &sniproxy.Dest{Name: "/ep0"}, nil
+			}
+			return nil, refusedErr(domain)
+		},
+		DialHome: func(ctx context.Context) (net.Conn, error) { return nil, errors.New("verif: home unreachable") },
+	}
+	rwC, err := mk(cfgC, []string{"/ep0"})
+	if err != nil {
+		res.SetupErr = "world C: " + err.Error()
+		return res
+	}
+	for _, sc := range []refuseScenario{
+		{"home:dial-error", tagged(hello("home.example"), "T-home-error"), false, "refused", "home.example", true},
+		{"forward:connection-refused", tagged(hello("fwd.example"), "T-fwd-refused"), false, "refused", "fwd.example", true},
+		{"control-after", tagged(full, "T-control-C"), false, "/ep0", "site0.example", false},
+	} {
+		res.Obs = append(res.Obs, rwC.run("C", sc))
+	}
+	rwC.w.Close()
+	return res
+}
+
 // ---- main ----
 
 var bigRounds bool
@@ -852,6 +1265,12 @@ func plan(seed uint64, n int, e2eRounds int, only string) []spec {
 		return ss
 	}
 	ss = append(ss, spec{stream: "regen", seed: r.U64()}) // corpus: stale side connection after re-registration
+	for _, m := range e2e.Modes { // every refusal path of hostConn, end to end, in each tunnel mode
+		ss = append(ss, spec{stream: "refuse", seed: r.U64(), mode: m})
+	}
+	for k := 1; k <= 4; k++ { // corpus: lookup results (dest, err), (nil, nil), (home, err), (forward, err)
+		ss = append(ss, spec{stream: "route", seed: r.U64(), a: k})
+	}
 	for i := 0; i < e2eRounds; i++ {
 		mode := e2e.Modes[i%3]
 		neps := 2 + r.Intn(5)
@@ -896,7 +1315,7 @@ func runSpec(i int, s spec) (c Case) {
 	case "reject":
 		c.Reject = runReject(r)
 	case "route":
-		c.Route = runRoute(r)
+		c.Route = runRoute(r, s.a)
 	case "office":
 		c.Office = runOffice(r, s.a)
 	case "conns":
@@ -909,6 +1328,8 @@ func runSpec(i int, s spec) (c Case) {
 		c.IDs = sniproxy.VerifSessionIDs(s.a, s.b)
 	case "e2e":
 		c.E2E = runE2E(r, s.mode, s.a, s.b)
+	case "refuse":
+		c.Refuse = runRefuse(r, s.mode)
 	}
 	return c
 }
